@@ -35,7 +35,8 @@ EXPLANATION = (
     "its flag variables does the function first pass the pointer to a parameter that is stored (least fixed point of "
     "'assigned to a member/element/global or passed on to a stored parameter', virtual calls expanded) and then delete it "
     "without taking it back or re-assigning it. (E2t) every strncpy into a fixed char array with a constant size is followed, on every path to the next use of the array, by a store of 0 at an index not above that size - or cannot need one (literal source shorter than the size; zero-initialised storage whose tail is never written; a constructor-established terminator beyond the size; identifier sources under the identifier-length assumption). (R7) a call that passes a link field of a list / tree node (pointer fields whose pointee is the record's own hierarchy; NULL at the ends) to a function that dereferences the parameter, or calls a member function through it, before any test (summaries from the may-be-NULL walk) is guarded by a test of that field in the caller (two sites exempt with their invariant). (R6) pointer members that a non-destructor method leaves untouched while it frees the objects reached through a sibling member of the same type (discovered: SingleLinkList::tail vs head in Empty()) are dereferenced only where the sibling is known to be non-NULL or after an assignment in the same function. (R5) every call-graph cycle reachable from the entry points (Tarjan over the resolved call graph with class-hierarchy expansion) consists of functions classified in tables/c05_recursion.json by what bounds the depth (schema structure, constant, dead branch, or only the input); input-bounded cycles and unlisted recursive functions fail. Not decided: heap lifetime beyond R4, integer overflow, the exact depth at which an input-bounded recursion exhausts the stack, time proportional to input, "
-    "judy.c / sc_hash.cc internals (vendored containers with structural invariants).")
+    "judy.c / sc_hash.cc internals (vendored containers with structural invariants)."
+    " (R8, shared with C06 R6N) a local pointer is not dereferenced where every definition that reaches the dereference is the null constant.")
 
 ENTRIES = ["STEPfile::ReadExchangeFile", "STEPfile::AppendExchangeFile", "STEPfile::ReadWorkingFile",
            "STEPfile::AppendWorkingFile", "STEPfile::WriteExchangeFile", "STEPfile::WriteWorkingFile",
@@ -391,5 +392,10 @@ def run(prog, res, tier):
     r5_recursion(prog, res, reachable)
     r6_stale_member(prog, res)
     r7_link_argument(prog, res)
+    # a local pointer that only ever holds the null constant when it is dereferenced (rule shared with C06)
+    from nullness import Nullness
+    from rules import c06
+    c06.r6_null_initialised(prog, res, reachable, Nullness(prog), rule="R8.null_initialised_local",
+                            components=tuple(UNITS["components"]), floor=20)
     nt = memsafe.run_strncpy_terminated(prog, res, CFG, reachable)
     res.floor("E2t.strncpy_terminated", "strncpy calls into fixed arrays with a constant size", nt, 1)
